@@ -89,7 +89,8 @@ class ApplicationRules:
         # AST-parse the formula
         try:
             tree = ast.parse(formula)
-        except SyntaxError:
+        except (SyntaxError, ValueError, RecursionError, MemoryError):
+            # NOTE: RecursionError and MemoryError are raised by the parser on a (very) deeply nested expression
             raise ApplicationStatusParseError('AST parse failure')
         # there must be only one element in the body, and it must be an expression
         if len(tree.body) != 1 or type(tree.body[0]) is not ast.Expr:
@@ -880,7 +881,8 @@ class ApplicationStatus:
             result = self.evaluate(self.rules.status_tree)
             if type(result) is not bool:
                 raise ApplicationStatusParseError('status formula cannot be resolved')
-        except ApplicationStatusParseError as exc:
+        except (ApplicationStatusParseError, RecursionError) as exc:
+            # NOTE: the evaluation is recursive, so a RecursionError is raised on a deeply nested formula
             self.logger.error(f'ApplicationStatus.update_status_formula: application_name={self.application_name}'
                               f' - {exc}')
             self.major_failure = True
